@@ -86,8 +86,10 @@ int disasm_1802(
       n++;
     }
 
+    // The byte after the 0x68 prefix selected the (unknown) instruction,
+    // so it is part of it.
     strcpy(instruction, "???");
-    return 1;
+    return 2;
   }
 
   n = 0;
